@@ -333,6 +333,8 @@ pub struct RetirementQueue {
 #[verifier::external_body]
 pub struct ShardBuffer { _p: () }
 impl ShardBuffer {
+    // the shard's number (its position in the write buffer's shard vector)
+    pub uninterp spec fn id(&self) -> int;
     #[verifier::external_body]
     pub fn drain_entries(&self) -> (v: Vec<WriteEntry>)
         ensures all_bounded(v@), v@.len() <= 0x1000_0000,
